@@ -51,7 +51,7 @@ func manifest(out string) int {
 			Technique: p.Technique(),
 		})
 	}
-	var nas []na
+	nas := []na{}
 	for id, why := range props.NotApplicable {
 		if !claimed[id] {
 			nas = append(nas, na{id, why})
